@@ -155,6 +155,8 @@ def generate(ck):
             descs.append(dict(base, kind="malformed", which=int(rng.integers(0, 6))))
     descs.append({"kind": "python-O", "curve": "ideal", "M": 1.0, "tau": 1.0, "end": 1.0, "n": 50, "t0": 0.0})
     descs.append({"kind": "malformed-special", "curve": "ideal", "M": 1.0, "tau": 1.0, "end": 1.0, "n": 50, "t0": 0.0, "seed": int(ck.seed)})
+    for cv in ("ideal", "fourier"):
+        descs.append({"kind": "default-bounds-active", "curve": cv, "M": 0.0, "tau": 1.0, "end": 1.0, "n": 80, "t0": 0.0})
     for cv in ("ideal", "fourier", "cubic-table"):
         descs.append({"kind": "never-produced", "curve": cv, "M": 0.0, "tau": 1.0, "end": 1.0, "n": 60, "t0": 0.0})
     return descs
@@ -191,6 +193,41 @@ def run_case(ck, desc):
             else:
                 ck.count(f"rejections.python-O.{o[7:]}")
         return True, {"snippets": len(snips)}
+    if kind == "default-bounds-active":
+        # records whose unconstrained optimum lies OUTSIDE the default limits (a net-injection / storage well: the
+        # cumulative falls; zero-mean meter noise of a shut-in well; a re-based cumulative), fitted by a
+        # forecaster that was given NO bounds argument: the default limits (M >= 0, tau >= 1e-10) are limits
+        f0 = curve(desc["curve"])
+        t0_ = np.linspace(1.0, 360.0, 80)
+        rng_ = np.random.default_rng(11)
+        records = {
+            "net injection": -300.0 * np.asarray(f0(t0_ / 150.0), dtype=float),
+            "zero-mean noise": rng_.normal(0.0, 2.0, len(t0_)) - 0.5,
+            "re-based cumulative": 300.0 * (np.asarray(f0(t0_ / 150.0), dtype=float) - float(f0(360.0 / 150.0))) - 1.0,
+        }
+        for label_, y_ in records.items():
+            for tau_s_ in (None, 120.0):
+                fo_ = ForecasterOnePhase(f0)
+                try:
+                    with warnings.catch_warnings():
+                        warnings.simplefilter("ignore")
+                        fo_.fit(t0_, y_, tau=tau_s_)
+                except Exception as e:  # noqa: BLE001
+                    _drain()
+                    ck.count(f"default_bounds_fit_raised.{type(e).__name__}")
+                    continue
+                _drain()
+                ck.count("fits_whose_unconstrained_optimum_is_outside_the_default_limits")
+                if not (fo_.M_ >= 0 and fo_.tau_ >= 1e-10):
+                    ck.violation("fitted-parameters-inside-bounds", {"record": label_, "bounds": "default (no bounds argument)", "M_": float(fo_.M_), "tau_": float(fo_.tau_), "tau_supplied": tau_s_}, desc)
+                if tau_s_ is not None:
+                    w_ = np.asarray(f0(t0_ / tau_s_), dtype=float)
+                    opt_ = max(0.0, float(np.dot(w_, y_) / np.dot(w_, w_)))
+                    if fo_.tau_ != tau_s_:
+                        ck.violation("supplied-tau-returned-unchanged", {"tau_": float(fo_.tau_), "supplied": tau_s_, "record": label_}, desc)
+                    if opt_ == 0.0 and not ck.margin("default bounds active: M = bounded optimum (0) relative to the data", abs(fo_.M_) / float(np.max(np.abs(y_))), 1e-4):
+                        ck.violation("bounded-least-squares-optimum", {"record": label_, "bounds": "default (no bounds argument)", "M_": float(fo_.M_), "closed_form": 0.0}, desc)
+        return True, {"records": len(records)}
     if kind == "never-produced":
         # a well that never produced (cumulative production identically zero): the fitted values still lie
         # inside the configured bounds, a supplied tau is returned unchanged, M is the bounded optimum
